@@ -2,7 +2,7 @@
 import re
 
 from .core import RuleResult
-from .facts import fn_key, fn_loc
+from .facts import fn_key, fn_loc, walk, strip, peel_refs, pat_bindings, Render
 from .sym import Tracer, Slice, Poly, Term, Tup, k, as_poly, as_term, walk_terms
 
 LEVEL = ("Static analysis (typed-HIR symbolic value numbering) of DatasetBase::{iter_fold, fold, cross_validate, "
@@ -568,5 +568,111 @@ def rule_err(ctx):
     return res.finish(3)
 
 
+def rule_cover(ctx):
+    """fold(): training part + validation part = all samples.  The chunk lists are the complete sequences produced by
+    axis_chunks_iter; if they are shortened (take / skip / filter / step_by) the left-over rows must be put back - as a
+    chunk that is appended unconditionally, or under a test that says exactly 'rows are left over' (nsamples compared
+    with k * fold_size).  Any other test (a remainder test, a length test of something else) drops the left-over rows
+    from every training set for some (n, k)."""
+    from .layout import with_parents
+    res = RuleResult("R-C01-cover", "fold() builds its training and validation parts from chunk lists that cover every sample (no truncated chunk sequence without the left-over rows put back)")
+    F = ctx.facts()
+    fns = [f for f in F.all_fns() if f["d"]["krate"] == "linfa" and f["d"]["name"] == "fold" and (f["d"].get("self_adt") or "").endswith("DatasetBase")]
+    if not fns:
+        res.missing_anchor("DatasetBase::fold")
+    for fn in fns:
+        c = fn["crate"]
+        key = fn_key(fn)
+        r = Render(c)
+        lists = {}      # local -> (LetStmt, truncating adaptors)
+        for n in walk(fn["body"]):
+            if n.get("k") == "LetStmt" and n.get("init") is not None and n["pat"].get("k") == "Bind":
+                names = []
+                e = strip(n["init"])
+                while e.get("k") == "MethodCall":
+                    names.append(e["name"])
+                    e = strip(e["recv"])
+                if "axis_chunks_iter" in names and "collect" in names:
+                    i0, i1 = names.index("collect"), names.index("axis_chunks_iter")
+                    trunc = [x for x in names[i0 + 1:i1] if x in ("take", "skip", "filter", "step_by", "take_while", "skip_while", "filter_map")]
+                    lists[n["pat"]["local"]] = (n, trunc, n["pat"]["name"])
+        if len(lists) < 2:
+            res.instance("%s : chunk lists" % key)
+            res.undecided("%s : chunk-lists" % key, "the record and target chunk lists of fold were not found (found %d)" % len(lists), fn_loc(fn))
+            continue
+        for loc, (let, trunc, nm) in sorted(lists.items()):
+            res.instance("%s : chunk list `%s`" % (key, nm))
+            if not trunc:
+                res.ok()
+                continue
+            # pushes that put the left-over rows back
+            pushes = []
+            for x, anc in with_parents(fn["body"]):
+                if x.get("k") == "MethodCall" and x["name"] in ("push", "extend", "insert") and peel_refs(x["recv"]).get("local") == loc:
+                    conds = [a for a in anc if a.get("k") == "If"]
+                    loops = [a for a in anc if a.get("k") == "Loop"]
+                    if not loops:
+                        pushes.append((x, conds))
+            if not pushes:
+                res.violate("%s : chunks-truncated:%s" % (key, nm), "the chunk list `%s` is shortened by `%s` and the left-over rows are never put back: they are missing from every training set" % (nm, trunc[0]), fn_loc(fn, let["ln"]))
+                continue
+            ok_ = False
+            why = None
+            for x, conds in pushes:
+                if not conds:
+                    ok_ = True
+                    continue
+                cond = strip(conds[-1]["c"])
+                txt = r.e(cond)
+                has_n = "nsamples" in txt or "nrows" in txt or "len_of" in txt
+                has_prod = any(y.get("k") == "Binary" and y["op"] == "*" for y in walk(cond))
+                has_rem = any(y.get("k") == "Binary" and y["op"] == "%" for y in walk(cond))
+                if cond.get("k") == "Binary" and cond["op"] in (">", "<", "!=", ">=", "<=") and has_n and has_prod and not has_rem:
+                    ok_ = True
+                else:
+                    why = txt
+            if ok_:
+                res.ok()
+            else:
+                res.violate("%s : tail-chunk-condition:%s" % (key, nm), "the chunk list `%s` is shortened by `%s` and the left-over rows are put back only when `%s`, which is not the test 'rows are left over' (nsamples against k * fold_size): for some (n, k) the tail is dropped from every training set" % (nm, trunc[0], (why or "")[:80]), fn_loc(fn, let["ln"]))
+    return res.finish(2)
+
+
+def rule_width(ctx):
+    """iter_fold cuts the raw record and target buffers in rows of nfeatures() / ntargets() values.  Those widths must be
+    read from the arrays that are cut: a width taken from anything else that can disagree with the array (the list of
+    names, a cached count) tears samples apart as soon as the two differ.  Path-enumerating influence analysis of the two
+    accessors: on every path the returned value depends on the container (or is a constant chosen by its dimensionality)."""
+    from .influence import Influence
+    res = RuleResult("R-C01-width", "the row widths used to cut raw buffers (DatasetBase::ntargets, nfeatures) are read from the target / record arrays on every path, never from the name lists")
+    F = ctx.facts()
+    want = {"ntargets": "self.targets", "nfeatures": "self.records"}
+    found = 0
+    for fn in F.all_fns():
+        d = fn["d"]
+        if d["krate"] != "linfa" or d["name"] not in want or not (d.get("self_adt") or "").endswith("DatasetBase"):
+            continue
+        found += 1
+        key = fn_key(fn)
+        inf = Influence(fn)
+        inf.run()
+        res.instance("%s : %d return paths" % (key, len(inf.returns)))
+        bad = None
+        for srcs, node, path in inf.returns:
+            foreign = sorted(x for x in srcs if x.startswith("self.") and x != want[d["name"]])
+            if foreign:
+                bad = (foreign, path)
+                break
+        if bad:
+            res.violate("%s : width-from:%s" % (key, ",".join(bad[0])), "on the path %s the value returned by `%s` depends on %s, not on the array whose raw buffer is cut with it: after with_targets / with_records the two can disagree and the block swaps of iter_fold tear samples apart" % (" / ".join(bad[1][-2:]) or "(straight)", d["name"], ", ".join(bad[0])), fn_loc(fn))
+        elif not inf.returns:
+            res.undecided("%s : no-return-path" % key, "no return path found", fn_loc(fn))
+        else:
+            res.ok()
+    if found < 2:
+        res.missing_anchor("DatasetBase::ntargets / nfeatures (found %d)" % found)
+    return res.finish(2)
+
+
 def rules(tier):
-    return [rule_pair, rule_agree, rule_count, rule_mean, rule_err]
+    return [rule_pair, rule_agree, rule_count, rule_mean, rule_err, rule_width, rule_cover]
